@@ -85,6 +85,7 @@ def table_cases(ctx):
     for c in range(2, 9):
         for t in TABLES:
             cases.append([f"tables {t} {c}"])
+            cases.append([f"tablesf {t} {c}"])        # QpFloatType = float (the trainer's default cache type)
             if c in (2, 4, 8):
                 cases.append([f"tablesq {t} {c}"])
     return cases
